@@ -2,6 +2,8 @@ package main
 
 import (
 	"errors"
+	"fmt"
+	"io"
 	"runtime"
 )
 
@@ -9,5 +11,6 @@ func emitModelCases(kind string, r *Rng, tier string, n int) {}
 
 var errSrcInjected = errors.New("injected source failure A")
 var errSrcInjected2 = errors.New("injected source failure B")
+var errSrcWrapsEOF = fmt.Errorf("transport closed: %w", io.EOF)
 
 func setProcs(n int) int { return runtime.GOMAXPROCS(n) }
